@@ -117,3 +117,49 @@ def extra_lazy_result(v: Verdict, tier: str):
     n = validate_traces(v, "Trace_ResultLazy", ["T_Outcome", "T_Visible"], recs, lambda r, c: {"extra": "PanopticaResult-lazy-metrics"},
                         what_fn=lambda r, c: f"lazy metric history cf={r['cf']}")
     v.cov["extra_lazy_result_histories"] = n
+
+
+# --------------------------------------------------------------------------------------
+# crop_data / uncrop_data of processing pairs (Trace_Crop.tla), attached to C10
+# --------------------------------------------------------------------------------------
+def crop_record(rng):
+    import numpy as np
+    from . import gen
+    from .project import flat, rank_map, shape_of
+    from panoptica import UnmatchedInstancePair, MatchedInstancePair, SemanticPair
+    pred, ref = gen.rand_unmatched_pair(rng, max_vox=64)
+    if rng.random() < 0.3:
+        pred = np.roll(pred, rng.choice([-1, 1]), axis=rng.randrange(pred.ndim))
+    dt = rng.choice([np.uint8, np.uint16, np.int32])
+    cls = rng.choice([UnmatchedInstancePair, MatchedInstancePair, SemanticPair]) if dt != np.int32 else SemanticPair
+    pred, ref = pred.astype(dt), ref.astype(dt)
+    rmap = rank_map(pred, ref)
+    rec = {"shape": shape_of(ref), "pred": flat(pred, rmap), "ref": flat(ref, rmap), "cshape": [1] * ref.ndim, "off": [0] * ref.ndim,
+           "cpred": [0], "cref": [0], "upred": [], "uref": [], "out": "ok", "meta": {"cls": cls.__name__, "dtype": str(np.dtype(dt))}}
+    try:
+        pair = cls(pred.copy(), ref.copy())
+        pair.crop_data()
+        cp, cr = np.asarray(pair.prediction_arr), np.asarray(pair.reference_arr)
+        rec["cshape"] = shape_of(cr)
+        rec["off"] = [int(s.start) for s in pair.crop]
+        rec["cpred"], rec["cref"] = flat(cp, rmap), flat(cr, rmap)
+        pair.uncrop_data()
+        up, ur = np.asarray(pair.prediction_arr), np.asarray(pair.reference_arr)
+        if up.shape != ref.shape:
+            raise ValueError("shape after uncrop differs")
+        rec["upred"] = flat(up.astype(np.int64), rmap)
+        rec["uref"] = flat(ur.astype(np.int64), rmap)
+    except Exception as e:  # noqa: BLE001
+        rec["out"] = "raise"
+        rec["meta"]["exception"] = f"{type(e).__name__}: {e}"[:200]
+    return rec
+
+
+def extra_crop(v: Verdict, tier: str):
+    rng = random.Random(seed() * 7919 + 404)
+    with quiet():
+        recs = [crop_record(rng) for _ in range(300 if tier == "quick" else 5000)]
+    n = validate_traces(v, "Trace_Crop", ["T_Completes", "T_CropIsSubarray", "T_NoVoxelLost", "T_UncropRestores"], recs,
+                        lambda r, c: {"extra": "crop/uncrop", "cls": r["meta"]["cls"]},
+                        what_fn=lambda r, c: f"crop/uncrop {r['meta']} shape={r['shape']}")
+    v.cov["extra_crop_uncrop_records"] = n
